@@ -148,6 +148,7 @@ def run_check(pid, P, tier, seed, replay, wd, t0):
                 s["poke"] = prng.randrange(1 << 30)
     for s in scns:
         s.setdefault("_cmp", None)
+        props.normalise_cmp(s)
     recs = run_sides(pid, scns, wd)
 
     # ---- 3. compare, judge
@@ -169,6 +170,31 @@ def run_check(pid, P, tier, seed, replay, wd, t0):
             else:
                 mism.append(entry)
 
+    # ---- 3b. witness phase: what the implementation chose where the property leaves a choice
+    # (listed strategies, recorded snapshots) is validated by the verified model
+    wit_items = []
+    for r in recs:
+        for w in props.witnesses(r, pid):
+            wit_items.append((r, w))
+            if len(wit_items) >= 20000:
+                break
+        if len(wit_items) >= 20000:
+            break
+    wit_run = [(r, w) for r, w in wit_items if w.get("scn") is not None]
+    wit_out = core.run_lean([w["scn"] for _, w in wit_run], wd, "wit") if wit_run else []
+    wit_fail = [(r, w["fail"], None) for r, w in wit_items if w.get("scn") is None]
+    for (r, w), o in zip(wit_run, wit_out):
+        msg = w["check"](o)
+        if msg:
+            wit_fail.append((r, msg, {"witness": w["scn"], "model_says": o}))
+    for r, msg, det in wit_fail:
+        entry = {"scenario": r["scn"], "detail": det, "property_failures": [msg]}
+        k = props.match_known(findings, r, det, [msg])
+        if k is None:
+            definite.append(entry)
+        else:
+            known_hits.setdefault(k["id"], (k, entry))
+
     gj = P.get("group_judge")
     if gj:
         for r, fails in gj(recs):
@@ -185,6 +211,7 @@ def run_check(pid, P, tier, seed, replay, wd, t0):
         extra = P["search"](rng, tier) if "search" in P else P["generate"](random.Random(f"{pid}:search:{seed}"), "thorough" if tier == "quick" else "thorough")
         for s in extra:
             s.setdefault("_cmp", None)
+            props.normalise_cmp(s)
         recs2 = run_sides(pid, extra, wd)
         searched = len(recs2)
         for r in recs2:
@@ -221,6 +248,7 @@ def run_check(pid, P, tier, seed, replay, wd, t0):
             "strata": dict(sorted(strata.items())),
             "disagreements_checked": len(mism) + len(definite) + len(known_hits),
             "failing_input_search_cases": searched,
+            "witnesses_validated": len(wit_run),
             "regenerated": regen_note,
             "known_findings_reproduced": sorted(known_hits),
             "exhaustive": False,
